@@ -394,10 +394,11 @@ def run_case(case_name, fn, cfg, opts):
         cover_expect.update(expect_)
         res.notes.update(notes)
         for ob in obls:
-            if len(res.violations) >= opts.get('max_violations_per_case', 4):
-                # the configuration is refuted (each violation replayed on
-                # the float code): the remaining obligations are not worth
-                # their replays
+            if opts.get('max_violations_per_case') and len(
+                    res.violations) >= opts['max_violations_per_case']:
+                # (opt-in, for configurations whose replays are expensive and
+                # that have no known findings: the configuration is refuted,
+                # each violation replayed on the float code)
                 res.stopped_early = True
                 break
             kind, label = ob[0], ob[1]
